@@ -17,14 +17,16 @@ CONSTANTS KnownDeviations
 
 Shapes == {"read", "read+sel", "read+elem", "reply", "full", "partial", "partial+sel", "delete+sel", "delete+elem",
            \* combinations of a delete filter with a partial selector (what FeatureLocal.UpdateData passes on)
-           "delete+selelem", "delete+sel&partial+sel", "delete+elem&partial+sel", "delete+selelem&partial+sel"}
-HasPartial(s) == s \in {"read+sel", "read+elem", "partial", "partial+sel", "delete+sel&partial+sel", "delete+elem&partial+sel", "delete+selelem&partial+sel"}
-HasDelete(s)  == s \in {"delete+sel", "delete+elem", "delete+selelem", "delete+sel&partial+sel", "delete+elem&partial+sel", "delete+selelem&partial+sel"}
+           "delete+selelem", "delete+sel&partial+sel", "delete+elem&partial+sel", "delete+selelem&partial+sel",
+           \* a selector / elements object without any field set ("all") is a value like any other
+           "read+sel0", "partial+sel0", "delete+sel0", "read+elem0", "delete+elem0"}
+HasPartial(s) == s \in {"read+sel", "read+elem", "partial", "partial+sel", "read+sel0", "partial+sel0", "read+elem0", "delete+sel&partial+sel", "delete+elem&partial+sel", "delete+selelem&partial+sel"}
+HasDelete(s)  == s \in {"delete+sel", "delete+elem", "delete+selelem", "delete+sel0", "delete+elem0", "delete+sel&partial+sel", "delete+elem&partial+sel", "delete+selelem&partial+sel"}
 \* per filter: 1 = carries exactly the given selector / elements, 0 = carries none
-PSel(s)  == IF s \in {"read+sel", "partial+sel", "delete+sel&partial+sel", "delete+elem&partial+sel", "delete+selelem&partial+sel"} THEN 1 ELSE 0
-PElem(s) == IF s = "read+elem" THEN 1 ELSE 0
-DSel(s)  == IF s \in {"delete+sel", "delete+selelem", "delete+sel&partial+sel", "delete+selelem&partial+sel"} THEN 1 ELSE 0
-DElem(s) == IF s \in {"delete+elem", "delete+selelem", "delete+elem&partial+sel", "delete+selelem&partial+sel"} THEN 1 ELSE 0
+PSel(s)  == IF s \in {"read+sel", "partial+sel", "read+sel0", "partial+sel0", "delete+sel&partial+sel", "delete+elem&partial+sel", "delete+selelem&partial+sel"} THEN 1 ELSE 0
+PElem(s) == IF s \in {"read+elem", "read+elem0"} THEN 1 ELSE 0
+DSel(s)  == IF s \in {"delete+sel", "delete+sel0", "delete+selelem", "delete+sel&partial+sel", "delete+selelem&partial+sel"} THEN 1 ELSE 0
+DElem(s) == IF s \in {"delete+elem", "delete+elem0", "delete+selelem", "delete+elem&partial+sel", "delete+selelem&partial+sel"} THEN 1 ELSE 0
 
 \* what must be recognised for function f built in shape s
 Expected(f, s) == [fn |-> f, payload |-> TRUE, partial |-> HasPartial(s), delete |-> HasDelete(s),
